@@ -16,7 +16,7 @@ def c04_capacity():
         for r in res:
             if 'error' in r or 'panic' in r:
                 return False, 'native: %r' % (r,)
-            if r['held_at_once'] != r['pool_size']:
+            if r['held_at_once'] != r['pool_size'] or r.get('held_at_once_min', r['pool_size']) != r['pool_size']:
                 bad.append(r)
         return bool(bad), 'native: connections held at once vs pool_size: %r' % (res,)
     return f
@@ -61,7 +61,7 @@ def o1_capacity(chk, prog):
         def rep(key, what, ps):
             m = ip_.model_for()
             n = 3
-            chk.report(ob, 'C04/O1/' + key, what, {'pool_size_example': n}, {'commands': [{'op': 'capacity_probe', 'pool_size': n, 'extra': 3},
+            chk.report(ob, 'C04/O1/' + key, what, {'pool_size_example': n}, {'commands': [{'op': 'capacity_probe', 'pool_size': n, 'extra': 3, 'servers': 2}, {'op': 'capacity_probe', 'pool_size': 4, 'extra': 3, 'servers': 3},
                                                                                            {'op': 'capacity_probe', 'pool_size': 1, 'extra': 3}], 'expect': ['c04_capacity']})
         if sorted((d, u) for d, u, _ in ents) != sorted(sizes):
             rep('pools-missing', 'from_config registered %r for the configured %r' % (sorted((d, u) for d, u, _ in ents), sorted(sizes)), None)
